@@ -461,9 +461,9 @@ theorem refs_fields (c : Cell) (j : Nat) (hj : j ∈ c.refs) : addr j ∈ Cello.
     exact List.mem_flatMap.mpr ⟨e, hm, by simp [hj2]⟩
 
 theorem toHeap_lookup (s : KSt) (i : Nat) :
-    (toHeap s).lookup (addr i) = (s.heap.lookup i).map (fun c => ⟨toObj c, false⟩) := by
+    (toHeap s).lookup (addr i) = (s.heap.lookup i).map (fun c => ⟨toObj c, storedRoot (isRooted s.slots i)⟩) := by
   have := addr_inv i
-  simp [toHeap, this.1, this.2.1, this.2.2]
+  simp [toHeap, toHeapW, this.1, this.2.1, this.2.2]
 
 theorem addr_bound (a n : Nat) (h1 : a % 8 = 0) (h2 : 8 ≤ a) (h3 : a / 8 - 1 < n) : a ≤ addr n := by
   unfold addr; omega
@@ -471,12 +471,12 @@ theorem addr_bound (a n : Nat) (h1 : a % 8 = 0) (h2 : 8 ≤ a) (h3 : a / 8 - 1 <
 theorem toHeap_wf (s : KSt) (hf : Fresh s) : (toHeap s).WF := by
   constructor
   · intro a e he
-    simp only [toHeap] at he
+    simp only [toHeap, toHeapW] at he
     split at he
     · rename_i hc; exact hc.1
     · cases he
   · intro a e he
-    simp only [toHeap] at he ⊢
+    simp only [toHeap, toHeapW] at he ⊢
     split at he
     · rename_i hc
       rcases hl : s.heap.lookup (a / 8 - 1) with _ | c
@@ -484,8 +484,20 @@ theorem toHeap_wf (s : KSt) (hf : Fresh s) : (toHeap s).WF := by
       · exact ⟨Nat.zero_le _, addr_bound a s.next hc.1 hc.2 (hf _ c hl)⟩
     · cases he
 
+/-- the registry entry of a rooted container is among the entries the root loop of `GC_Mark` starts from — because the root
+    argument of `GC_Set_Ptr` arrives in the member that loop tests (`RootWired`) -/
+theorem rooted_in_rootAddrs (s : KSt) (hw : RootWired) {i : Nat} (hs : (s.heap.lookup i).isSome = true)
+    (hroot : isRooted s.slots i = true) : addr i ∈ Cello.Heap.rootAddrs (toHeap s) := by
+  rcases hl : s.heap.lookup i with _ | c
+  · rw [hl] at hs; cases hs
+  · have hm := lookup_mem_fst _ _ _ hl
+    refine List.mem_filter.mpr ⟨List.mem_map.mpr ⟨(i, c), hm, rfl⟩, ?_⟩
+    rw [toHeap_lookup, hl]
+    simp only [Option.map_some, hroot]
+    exact hw
+
 /-- what the program can reach, the collector's marker reaches (model of src/GC.c: Cello/Heap.lean) -/
-theorem reach_to_heap (s : KSt) {i : Nat} (hr : KReach s.heap s.roots i) :
+theorem reach_to_heap (s : KSt) (hw : RootWired) {i : Nat} (hr : KReach s.heap s.roots i) :
     Cello.Heap.Reachable HC (toHeap s) (Cello.Heap.rootWords HC (toHeap s) (threadObj s) (stackWords s)) (addr i) := by
   have reg : ∀ k, (s.heap.lookup k).isSome = true → ((toHeap s).lookup (addr k)).isSome = true := by
     intro k hk; rw [toHeap_lookup]; cases hx : s.heap.lookup k <;> simp [hx] at hk ⊢
@@ -495,7 +507,13 @@ theorem reach_to_heap (s : KSt) {i : Nat} (hr : KReach s.heap s.roots i) :
     simp only [KSt.roots, List.mem_append] at hroot
     simp only [Cello.Heap.rootWords, List.mem_append]
     rcases hroot with h | h
-    · exact .inr (.inr (List.mem_map.mpr ⟨i, h, rfl⟩))
+    · -- a holder variable: on the stack — or in static storage, then the container is a root entry of the registry
+      obtain ⟨sl, hsl, hri⟩ := List.mem_filterMap.mp h
+      cases hrt : sl.rooted
+      · exact .inr (.inr (List.mem_map.mpr ⟨i, List.mem_filterMap.mpr ⟨sl, List.mem_filter.mpr ⟨hsl, by simp [hrt]⟩, hri⟩, rfl⟩))
+      · refine .inr (.inl (rooted_in_rootAddrs s hw hs ?_))
+        simp only [isRooted, List.any_eq_true]
+        exact ⟨sl, hsl, by simp [hrt, hri]⟩
     · left
       obtain ⟨e, he, hei⟩ := List.mem_map.mp h
       have ht := current_tables
@@ -505,13 +523,13 @@ theorem reach_to_heap (s : KSt) {i : Nat} (hr : KReach s.heap s.roots i) :
       refine fieldsL_mem _ (.raw "Ref" [addr i]) ?_ _ (by rw [fields_plain _ _ (by simp)]; simp)
       exact List.mem_flatMap.mpr ⟨e, he, by simp [hei]⟩
   | @step i j c _ hl hm hs ih =>
-    refine .step ih ⟨⟨toObj c, false⟩, by rw [toHeap_lookup, hl]; rfl, refs_fields c j hm⟩ (reg j hs)
+    refine .step ih ⟨⟨toObj c, storedRoot (isRooted s.slots i)⟩, by rw [toHeap_lookup, hl]; rfl, refs_fields c j hm⟩ (reg j hs)
 
 /-- **The collector does not free what the program can reach** (and leaves its contents alone). -/
-theorem kcollect_keeps {s : KSt} (hf : Fresh s) {i : Nat} (hr : KReach s.heap s.roots i) :
+theorem kcollect_keeps (hw : RootWired) {s : KSt} (hf : Fresh s) {i : Nat} (hr : KReach s.heap s.roots i) :
     (kcollect s).heap.lookup i = s.heap.lookup i := by
   have wf := toHeap_wf s hf
-  have hreach := (Cello.Heap.reachable_iff_reach wf _ _).mp (reach_to_heap s hr)
+  have hreach := (Cello.Heap.reachable_iff_reach wf _ _).mp (reach_to_heap s hw hr)
   have hmark := (Cello.Heap.gcMark_iff_reach Cello.Heap.listSet HC (toHeap s) (threadObj s) (stackWords s) (addr i)).mpr hreach
   have hnp : addr i ∉ (Cello.Heap.collect Cello.Heap.listSet HC (toHeap s) (threadObj s) (stackWords s)).2 := by
     intro hp
@@ -519,7 +537,8 @@ theorem kcollect_keeps {s : KSt} (hf : Fresh s) {i : Nat} (hr : KReach s.heap s.
     have h2 := ((Cello.Heap.mem_pending _ _ _ _).mp hp).2
     obtain ⟨e, _, _, hm⟩ := (Cello.Heap.sweeps_iff _ _ _ _).mp h2
     rw [hmark] at hm; cases hm
-  simp only [kcollect]
+  simp only [kcollect, kcollectW]
+  rw [show toHeapW storedRoot s = toHeap s from rfl]
   rw [lookup_filter_key (fun k => !((Cello.Heap.collect Cello.Heap.listSet HC (toHeap s) (threadObj s) (stackWords s)).2.contains (addr k)))]
   have : ((Cello.Heap.collect Cello.Heap.listSet HC (toHeap s) (threadObj s) (stackWords s)).2.contains (addr i)) = false := by
     simpa using hnp
@@ -527,7 +546,8 @@ theorem kcollect_keeps {s : KSt} (hf : Fresh s) {i : Nat} (hr : KReach s.heap s.
 
 /-- a collection only removes blocks -/
 theorem kcollect_sub (s : KSt) {i : Nat} {c : Cell} (h : (kcollect s).heap.lookup i = some c) : s.heap.lookup i = some c := by
-  simp only [kcollect] at h
+  simp only [kcollect, kcollectW] at h
+  rw [show toHeapW storedRoot s = toHeap s from rfl] at h
   rw [lookup_filter_key (fun k => !((Cello.Heap.collect Cello.Heap.listSet HC (toHeap s) (threadObj s) (stackWords s)).2.contains (addr k)))] at h
   split at h
   · exact h
@@ -535,7 +555,7 @@ theorem kcollect_sub (s : KSt) {i : Nat} {c : Cell} (h : (kcollect s).heap.looku
 
 theorem kcollect_roots (s : KSt) : (kcollect s).roots = s.roots := rfl
 
-theorem kcollect_reach_iff {s : KSt} (hf : Fresh s) (i : Nat) :
+theorem kcollect_reach_iff (hw : RootWired) {s : KSt} (hf : Fresh s) (i : Nat) :
     KReach (kcollect s).heap (kcollect s).roots i ↔ KReach s.heap s.roots i := by
   have some_of : ∀ k, ((kcollect s).heap.lookup k).isSome = true → (s.heap.lookup k).isSome = true := by
     intro k hk
@@ -549,24 +569,24 @@ theorem kcollect_reach_iff {s : KSt} (hf : Fresh s) (i : Nat) :
     | step _ hl hm hs ih => exact .step ih (kcollect_sub s hl) hm (some_of _ hs)
   · intro hr
     induction hr with
-    | @root i hroot hs => exact .root hroot (by rw [kcollect_keeps hf (.root hroot hs)]; exact hs)
+    | @root i hroot hs => exact .root hroot (by rw [kcollect_keeps hw hf (.root hroot hs)]; exact hs)
     | @step i j c hri hl hm hs ih =>
-      exact .step ih (by rw [kcollect_keeps hf hri]; exact hl) hm (by rw [kcollect_keeps hf (.step hri hl hm hs)]; exact hs)
+      exact .step ih (by rw [kcollect_keeps hw hf hri]; exact hl) hm (by rw [kcollect_keeps hw hf (.step hri hl hm hs)]; exact hs)
 
 theorem kcollect_fresh {s : KSt} (hf : Fresh s) : Fresh (kcollect s) :=
   fun i c hl => hf i c (kcollect_sub s hl)
 
 /-- **A collection is invisible to the program.** -/
-theorem kcollect_sim_left {s t : KSt} (h : Sim s t) (hf : Fresh s) : Sim (kcollect s) t := by
+theorem kcollect_sim_left (hw : RootWired) {s t : KSt} (h : Sim s t) (hf : Fresh s) : Sim (kcollect s) t := by
   refine ⟨h.next, h.slots, h.tls, h.used, ?_, ?_⟩
   · intro i hr
-    have hr' := (kcollect_reach_iff hf i).mp hr
-    rw [h.fwd i hr', kcollect_keeps hf hr']
+    have hr' := (kcollect_reach_iff hw hf i).mp hr
+    rw [h.fwd i hr', kcollect_keeps hw hf hr']
   · intro i hr
     have hr' : KReach s.heap s.roots i := h.symm.reach hr
-    rw [kcollect_keeps hf hr', h.bwd i hr]
+    rw [kcollect_keeps hw hf hr', h.bwd i hr]
 
-theorem gcTail_sim_left (cfg : Cfg) (u : Upd) {a b : KSt} (h : Sim a b) (hf : Fresh a) :
+theorem gcTail_sim_left (hw : RootWired) (cfg : Cfg) (u : Upd) {a b : KSt} (h : Sim a b) (hf : Fresh a) :
     Sim (gcTail cfg u a) b ∧ Fresh (gcTail cfg u a) := by
   unfold gcTail
   cases cfg.gc
@@ -576,10 +596,10 @@ theorem gcTail_sim_left (cfg : Cfg) (u : Upd) {a b : KSt} (h : Sim a b) (hf : Fr
       fun _ => ⟨⟨h.next, h.slots, h.tls, h.used, h.fwd, h.bwd⟩, hf⟩
     split
     · split
-      · exact ⟨kcollect_sim_left (h2 _).1 (h2 _).2, kcollect_fresh (h2 _).2⟩
+      · exact ⟨kcollect_sim_left hw (h2 _).1 (h2 _).2, kcollect_fresh (h2 _).2⟩
       · exact h2 _
     · split
-      · exact ⟨kcollect_sim_left h hf, kcollect_fresh hf⟩
+      · exact ⟨kcollect_sim_left hw h hf, kcollect_fresh hf⟩
       · exact ⟨h, hf⟩
 
 /-! ### E. steps and programs -/
@@ -587,7 +607,7 @@ theorem gcTail_sim_left (cfg : Cfg) (u : Upd) {a b : KSt} (h : Sim a b) (hf : Fr
 /-- **One operation, any two configurations.** From states that show the program the same thing, the operation has the
     same outcome (the same value read, or the same refusal) under both configurations and leaves states that again show
     the program the same thing — whenever and however often either collector ran. -/
-theorem kstep_sim (c₁ c₂ : Cfg) (op : KOp) {s t : KSt} (h : Sim s t) (hfs : Fresh s) (hft : Fresh t) :
+theorem kstep_sim (hw : RootWired) (c₁ c₂ : Cfg) (op : KOp) {s t : KSt} (h : Sim s t) (hfs : Fresh s) (hft : Fresh t) :
     (kstep c₁ op s).2 = (kstep c₂ op t).2 ∧ Sim (kstep c₁ op s).1 (kstep c₂ op t).1 ∧
       Fresh (kstep c₁ op s).1 ∧ Fresh (kstep c₂ op t).1 := by
   unfold kstep
@@ -603,16 +623,16 @@ theorem kstep_sim (c₁ c₂ : Cfg) (op : KOp) {s t : KSt} (h : Sim s t) (hfs : 
       have h1 := applyRaw_sim h hfs hft hok
       have f1 := applyRaw_fresh hfs hok
       have f2 := applyRaw_fresh hft hok'
-      obtain ⟨h2, f1'⟩ := gcTail_sim_left c₁ u h1 f1
-      obtain ⟨h3, f2'⟩ := gcTail_sim_left c₂ u h2.symm f2
+      obtain ⟨h2, f1'⟩ := gcTail_sim_left hw c₁ u h1 f1
+      obtain ⟨h3, f2'⟩ := gcTail_sim_left hw c₂ u h2.symm f2
       exact ⟨by first | rfl | trivial, h3.symm, f1', f2'⟩
 
-theorem krun_sim (c₁ c₂ : Cfg) : ∀ (prog : List KOp) {s t : KSt}, Sim s t → Fresh s → Fresh t →
+theorem krun_sim (hw : RootWired) (c₁ c₂ : Cfg) : ∀ (prog : List KOp) {s t : KSt}, Sim s t → Fresh s → Fresh t →
     (krun c₁ prog s).2 = (krun c₂ prog t).2 ∧ Sim (krun c₁ prog s).1 (krun c₂ prog t).1
   | [], _, _, h, _, _ => ⟨rfl, h⟩
   | op :: rest, s, t, h, hfs, hft => by
-    obtain ⟨h1, h2, h3, h4⟩ := kstep_sim c₁ c₂ op h hfs hft
-    obtain ⟨h5, h6⟩ := krun_sim c₁ c₂ rest h2 h3 h4
+    obtain ⟨h1, h2, h3, h4⟩ := kstep_sim hw c₁ c₂ op h hfs hft
+    obtain ⟨h5, h6⟩ := krun_sim hw c₁ c₂ rest h2 h3 h4
     simp only [krun]
     exact ⟨by rw [h1, h5], h6⟩
 
@@ -632,9 +652,9 @@ theorem krun_gc_only {c c' : Cfg} (h : c.gc = c'.gc) : ∀ (prog : List KOp) (s 
     rw [kstep_gc_only h op s, krun_gc_only h rest]
 
 /-- the serial numbers given out do not depend on the configuration -/
-theorem used_config_independent (c₁ c₂ : Cfg) (prog : List KOp) :
+theorem used_config_independent (hw : RootWired) (c₁ c₂ : Cfg) (prog : List KOp) :
     (krun c₁ prog KSt.init).1.used = (krun c₂ prog KSt.init).1.used :=
-  (krun_sim c₁ c₂ prog (Sim.refl _) fresh_init fresh_init).2.used
+  (krun_sim hw c₁ c₂ prog (Sim.refl _) fresh_init fresh_init).2.used
 
 theorem filter_not_contains_nil (xs : List Int) : xs.filter (fun i => !(([] : List Int).contains i)) = xs := by
   induction xs with
@@ -655,29 +675,79 @@ theorem endLedger_ngc {c : Cfg} (h : c.gc = false) (prog : List KOp) :
   rw [if_neg (by simp [h])]
   rw [krun_gc_only (c := c) (c' := ngcCfg) (by rw [h]; rfl)]
 
-theorem endLedger_of_releasesAll (c : Cfg) (prog : List KOp) (h : ReleasesAll prog) :
+theorem endLedger_of_releasesAll (hw : RootWired) (c : Cfg) (prog : List KOp) (h : ReleasesAll prog) :
     endLedger c prog = (krun ngcCfg prog KSt.init).1.used := by
   cases hg : c.gc
   · rw [endLedger_ngc hg]
     unfold ledger
     rw [h]
     exact filter_not_contains_nil _
-  · rw [endLedger_gc hg, used_config_independent c ngcCfg]
+  · rw [endLedger_gc hg, used_config_independent hw c ngcCfg]
+
+
+/-! ### G. the wiring of the root flag matters: the seeded shape (`{ ptr, ihash, root, 0 }` against `bool marked; bool root;`) -/
+
+theorem reach_nil {a : Nat} {h : Cello.Heap.Heap} : ¬ Cello.Heap.Reach HC h [] a := by
+  intro hr
+  induction hr with
+  | root hroot _ => cases hroot
+  | step _ _ _ ih => exact ih
+
+/-- the smallest program with a root: `static var reg; reg = new_root(Array, Ref);` — one block, its variable outside the
+    collector's view -/
+def rootOnly : KSt :=
+  { KSt.init with next := 1, heap := [(0, .array [])], slots := [⟨0, .array, some 0, true⟩] }
+
+theorem fresh_rootOnly : Fresh rootOnly := by
+  intro i c h
+  cases i with
+  | zero => decide
+  | succ n => simp [rootOnly, List.lookup] at h
+
+/-- **If the entry does not carry the flag in the member the collector tests, the first collection frees the root.**  With the
+    wiring `fun _ => false` (what the initialiser `{ ptr, ihash, root, 0 }` yields once the two flag members of `struct GCEntry`
+    have changed places: the root argument lands in `marked`, which `GC_Unmark` wipes, and `root` is 0) nothing presents the
+    container to the marker — no stack word, no thread-local entry, no root entry — and `GC_Sweep` puts it on the free list. -/
+theorem kcollectW_unwired_loses_root : (kcollectW (fun _ => false) rootOnly).heap.lookup 0 = none := by
+  have hroots : Cello.Heap.rootWords HC (toHeapW (fun _ => false) rootOnly) (threadObj rootOnly) (stackWords rootOnly) = [] := by
+    decide +kernel
+  have hun : Cello.Heap.listSet.mem (addr 0)
+      (Cello.Heap.gcMark Cello.Heap.listSet HC (toHeapW (fun _ => false) rootOnly) (threadObj rootOnly) (stackWords rootOnly)) = false := by
+    cases hm : Cello.Heap.listSet.mem (addr 0)
+      (Cello.Heap.gcMark Cello.Heap.listSet HC (toHeapW (fun _ => false) rootOnly) (threadObj rootOnly) (stackWords rootOnly)) with
+    | false => rfl
+    | true =>
+      have := (Cello.Heap.gcMark_iff_reach Cello.Heap.listSet HC _ (threadObj rootOnly) (stackWords rootOnly) (addr 0)).mp hm
+      rw [hroots] at this
+      exact absurd this reach_nil
+  have hl : (toHeapW (fun _ => false) rootOnly).lookup (addr 0) = some ⟨toObj (.array []), false⟩ := by
+    have := addr_inv 0
+    simp [toHeapW, this.1, this.2.1, this.2.2, rootOnly, List.lookup]
+  have hp : addr 0 ∈ (Cello.Heap.collect Cello.Heap.listSet HC (toHeapW (fun _ => false) rootOnly) (threadObj rootOnly) (stackWords rootOnly)).2 := by
+    simp only [Cello.Heap.collect]
+    refine (Cello.Heap.mem_pending _ _ _ _).mpr ⟨by decide +kernel, ?_⟩
+    exact (Cello.Heap.sweeps_iff _ _ _ _).mpr ⟨_, hl, rfl, hun⟩
+  simp only [kcollectW]
+  rw [lookup_filter_key (fun k => !((Cello.Heap.collect Cello.Heap.listSet HC (toHeapW (fun _ => false) rootOnly) (threadObj rootOnly) (stackWords rootOnly)).2.contains (addr k)))]
+  have : ((Cello.Heap.collect Cello.Heap.listSet HC (toHeapW (fun _ => false) rootOnly) (threadObj rootOnly) (stackWords rootOnly)).2.contains (addr 0)) = true := by
+    simpa using hp
+  rw [this]
+  rfl
 
 
 end Cello.Config.Keep
 
 namespace Cello.Config
 
-theorem keepAfter_sim (c₁ c₂ : Cfg) (op : Op) {k₁ k₂ : Keep.KSt} (h : Keep.Sim k₁ k₂) (h1 : Keep.Fresh k₁) (h2 : Keep.Fresh k₂) :
+theorem keepAfter_sim (hw : Keep.RootWired) (c₁ c₂ : Cfg) (op : Op) {k₁ k₂ : Keep.KSt} (h : Keep.Sim k₁ k₂) (h1 : Keep.Fresh k₁) (h2 : Keep.Fresh k₂) :
     Keep.Sim (keepAfter c₁ op k₁) (keepAfter c₂ op k₂) ∧ Keep.Fresh (keepAfter c₁ op k₁) ∧ Keep.Fresh (keepAfter c₂ op k₂) := by
   unfold keepAfter
   split
-  · exact (Keep.kstep_sim c₁ c₂ .gc h h1 h2).2
+  · exact (Keep.kstep_sim hw c₁ c₂ .gc h h1 h2).2
   · exact ⟨h, h1, h2⟩
 
 /-- the two halves of the workload do not interact: the simulations of Lemmas/Cfg.lean and of this file compose -/
-theorem wrun_sim (cfg : Cfg) : ∀ (prog : List WOp) (s₁ s₂ : St) (k₁ k₂ : Keep.KSt),
+theorem wrun_sim (hw : Keep.RootWired) (cfg : Cfg) : ∀ (prog : List WOp) (s₁ s₂ : St) (k₁ k₂ : Keep.KSt),
     Equiv s₁ s₂ → WF Cfg.default s₁ → WF cfg s₂ → Keep.Sim k₁ k₂ → Keep.Fresh k₁ → Keep.Fresh k₂ →
     WInContract (wrun Cfg.default prog (s₁, k₁)).2 →
     (wrun cfg prog (s₂, k₂)).2 = (wrun Cfg.default prog (s₁, k₁)).2
@@ -687,13 +757,13 @@ theorem wrun_sim (cfg : Cfg) : ∀ (prog : List WOp) (s₁ s₂ : St) (k₁ k₂
     obtain ⟨out, hout⟩ := hok _ (List.mem_cons_self ..) _ rfl
     obtain ⟨h1, h2, h3⟩ := step_sim cfg op he hw₁ hw₂ hout
     have hw₁' := (step_sim Cfg.default op (Equiv.refl s₁) hw₁ hw₁ hout).2.2
-    obtain ⟨hk', hf₁', hf₂'⟩ := keepAfter_sim Cfg.default cfg op hk hf₁ hf₂
-    have ih := wrun_sim cfg rest _ _ _ _ h2 hw₁' h3 hk' hf₁' hf₂' (fun r hr => hok r (List.mem_cons_of_mem _ hr))
+    obtain ⟨hk', hf₁', hf₂'⟩ := keepAfter_sim hw Cfg.default cfg op hk hf₁ hf₂
+    have ih := wrun_sim hw cfg rest _ _ _ _ h2 hw₁' h3 hk' hf₁' hf₂' (fun r hr => hok r (List.mem_cons_of_mem _ hr))
     rw [ih, h1, hout]
   | .keep ko :: rest, s₁, s₂, k₁, k₂, he, hw₁, hw₂, hk, hf₁, hf₂, hok => by
     simp only [wrun, wstep] at hok ⊢
-    obtain ⟨h1, h2, h3, h4⟩ := Keep.kstep_sim Cfg.default cfg ko hk hf₁ hf₂
-    have ih := wrun_sim cfg rest _ _ _ _ he hw₁ hw₂ h2 h3 h4 (fun r hr => hok r (List.mem_cons_of_mem _ hr))
+    obtain ⟨h1, h2, h3, h4⟩ := Keep.kstep_sim hw Cfg.default cfg ko hk hf₁ hf₂
+    have ih := wrun_sim hw cfg rest _ _ _ _ he hw₁ hw₂ h2 h3 h4 (fun r hr => hok r (List.mem_cons_of_mem _ hr))
     rw [ih, h1]
 
 end Cello.Config
